@@ -648,6 +648,7 @@ class Run:
     self.viols = []
     self.cross = []
     self.inconclusive = None
+    self.worst_err = 0.0
     self.stats = {'events': {}, 'faults': {}, 'steps': 0, 'sim_time': 0.0,
                   'probes': {}, 'checkpoint_cycles': 0, 'sharded_steps': 0}
     self.last_ckpt = None
@@ -686,6 +687,8 @@ class Run:
     a = canon(ref.ensure(sut.n), ref.coords)
     b = canon(sut.state, sut.coords)
     ok, msg, err = compare_canon(a, b, self.job['dt'])
+    if ok:
+      self.worst_err = max(self.worst_err, err)
     self.log.emit('cmp', n=sut.n, ok=ok, err=float(f'{err:.3e}') if np.isfinite(err) else -1)
     return ok, msg
 
@@ -713,6 +716,8 @@ class Run:
     want_final = canon(ref.states[n0 + total], ref.coords)
     got_final = canon(final, sut.coords)
     ok, msg, err = compare_canon(want_final, got_final, self.job['dt'])
+    if ok:
+      self.worst_err = max(self.worst_err, err)
     bad = None if ok else f'final state after {total} steps: {msg}'
     if ok and outer >= 1:
       for k in range(outer):
@@ -1354,7 +1359,8 @@ def run_one(seed, tier, opts, prop):
                 'r_probes': st['probes'],
                 'r_families': {job['family']: 1},
                 'r_integrators': {job['integrator']: 1},
-                'r_inconclusive': int(bool(r.inconclusive))},
+                'r_inconclusive': int(bool(r.inconclusive)),
+                'r_sut_vs_reference_rel_err_max': r.worst_err},
       'violations': out_v,
       'cross': r.cross,
       'sample': {'job': {k: job[k] for k in ('family', 'impl', 'grid', 'layers',
